@@ -17,7 +17,7 @@ import os, re
 from vlib import Case, Stream, BUILD, model_cmd
 
 ID = "C19"
-LEAN_MODULES = ["HgVerif.Props.C19", "HgVerif.Model.TieC19", "HgVerif.Model.Extracted"]
+LEAN_MODULES = ["HgVerif.Props.C19", "HgVerif.Props.C19Var", "HgVerif.Model.DispatchVar", "HgVerif.Model.TieC19", "HgVerif.Model.Extracted"]
 USES_EXTRACT = True
 THEOREMS = ["HgVerif.Tie.tie_rankLarge", "HgVerif.Tie.tie_rankScalarVar", "HgVerif.Tie.tie_rankCollectTsDefault", "HgVerif.Tie.tie_rankCollectScalarDefault", "HgVerif.Tie.tie_rankDecayDiv", "HgVerif.Tie.tie_rankDecayFloor", "HgVerif.Tie.tie_rankTslSizeVarBonus", "HgVerif.Tie.tie_rankTslAnySizeBonus", "HgVerif.Tie.tie_rankTswAnyWindowBonus",
     
@@ -55,6 +55,25 @@ THEOREMS = ["HgVerif.Tie.tie_rankLarge", "HgVerif.Tie.tie_rankScalarVar", "HgVer
     "HgVerif.Dispatch.rank_structure_instance_le",
     "HgVerif.Dispatch.rank_structure_instance_strict",
     "HgVerif.Dispatch.rank_respects_instantiation_refuted",
+    # variadic candidates (Model/DispatchVar.lean, Props/C19Var.lean)
+    "HgVerif.Dispatch.resolveCallV_lift",
+    "HgVerif.Dispatch.resolve_perm_invariant_var",
+    "HgVerif.Dispatch.P_C19V_holds",
+    "HgVerif.Dispatch.winner_unique_min_var",
+    "HgVerif.Dispatch.resolveV_noMatch_iff",
+    "HgVerif.Dispatch.resolveV_winner_iff",
+    "HgVerif.Dispatch.resolveV_ambiguous_iff",
+    "HgVerif.Dispatch.resolveV_total",
+    "HgVerif.Dispatch.variadic_match_sound",
+    "HgVerif.Dispatch.tail_bindings_do_not_leak",
+    "HgVerif.Dispatch.variadic_survives_without_tail",
+    "HgVerif.Dispatch.tail_only_variable_unbound",
+    "HgVerif.Dispatch.variadic_rank_formula",
+    "HgVerif.Dispatch.tailRank_eq_param_rank",
+    "HgVerif.Dispatch.operatorRank_append_le",
+    "HgVerif.Dispatch.fixed_arity_beats_variadic_at_equal_specificity",
+    "HgVerif.Dispatch.variadic_never_beats_its_fixed_expansion",
+    "HgVerif.Dispatch.tsPatternRank_tail_prefers_less_specific",
 ]
 CXX_TARGETS = ["hgv_dispatch"]
 RULE = ("synthetic overload families (1-6 overloads, arity 1-3) obtained by generalising a concrete argument tuple "
@@ -509,13 +528,80 @@ def pvars(p, acc):
     return acc
 
 
+def is_variadic(ov):
+    """the LAST parameter is the tail pattern (written *ts:<tp>, kind 'vts')"""
+    return bool(ov[0]) and ov[0][-1][0] == "vts"
+
+
+def fixed_params(ov):
+    return ov[0][:-1] if is_variadic(ov) else ov[0]
+
+
+def tail_pattern(ov):
+    return ov[0][-1][1] if is_variadic(ov) else None
+
+
+def split_call(ov, args):
+    """(fixed parameters, their arguments, tail pattern | None, tail arguments), or None when the arity does not fit:
+    a fixed-arity candidate takes exactly its parameters, a variadic one at least its fixed ones (the overflow is the tail)"""
+    fx = fixed_params(ov)
+    if is_variadic(ov):
+        if len(args) < len(fx):
+            return None
+        return fx, args[:len(fx)], tail_pattern(ov), args[len(fx):]
+    if len(fx) != len(args):
+        return None
+    return fx, args, None, []
+
+
+def value_fits(c, v):
+    """can a plain value of scalar type v stand for a port of schema c (current_value_schema_compatible on an atom):
+    TS[v] - and a SIGNAL takes a bool"""
+    return c == ("TS", v) or (c == ("SIGNAL",) and v == "bool")
+
+
+def promote(p, v, b):
+    """a plain VALUE of scalar type v in a variadic tail, promoted to a const source (scalar_value_matches_ts_pattern):
+    REF[p] promotes into its target; a variable that is already bound must be bound to what the value can stand for, an
+    unbound one binds TS[v]; a concrete leaf must be what the value can stand for; TS[sp] matches the scalar; SIGNAL
+    takes a bool; a collection pattern never takes an atom"""
+    k = p[0]
+    if k == "REF":
+        return promote(p[1], v, b)
+    if k == "var":
+        if ("ts", p[1]) in b:
+            return value_fits(b[("ts", p[1])], v)
+        return _bind_ts(b, ("ts", p[1]), ("TS", v), p[2])
+    if k == "conc":
+        return value_fits(p[1], v)
+    if k == "TS":
+        return smatch(p[1], v, b)
+    if k == "SIGNAL":
+        return v == "bool"
+    return False
+
+
+def tail_arg_matches(tail, arg, b, strict=False):
+    """one tail argument against the tail pattern, in a COPY of the bindings of the fixed part (the copy is returned:
+    what the argument binds on top never flows back)"""
+    scope = dict(b)
+    ak, a = arg
+    ok = pmatch(tail, a, scope, strict) if ak == "ts" else promote(tail, a, scope)
+    return ok, scope
+
+
 def candidate_matches(ov, args, strict=False):
-    """(matches?, bindings) of one overload against a positional argument tuple"""
-    params, out, _kw = ov
-    if len(params) != len(args):
+    """(matches?, bindings) of one overload against a positional argument tuple.  A variadic candidate: the fixed
+    parameters bind as usual; EVERY tail argument must match the tail pattern on its own, under the bindings of the
+    fixed part extended per argument (heterogeneous tails are fine); the output is produced from the bindings of the
+    fixed part alone."""
+    _params, out, _kw = ov
+    sp = split_call(ov, args)
+    if sp is None:
         return False, {}
+    params, fargs, tail, targs = sp
     b = {}
-    for (pk, pat), (ak, a) in zip(params, args):
+    for (pk, pat), (ak, a) in zip(params, fargs):
         if pk == "ts":
             if ak != "ts" or not pmatch(pat, a, b, strict):
                 return False, b
@@ -527,9 +613,50 @@ def candidate_matches(ov, args, strict=False):
                     return False, b
             elif not smatch(pat, a, b):
                 return False, b
+    for arg in targs:
+        if not tail_arg_matches(tail, arg, b, strict)[0]:
+            return False, b
     if out is not None and psubst(out, b) is None:
         return False, b
     return True, b
+
+
+def rename_vars(p, ren):
+    """rename the variables of a pattern: ren maps (sort, name) -> new name (others stay)"""
+    k = p[0]
+    if k in ("var", "TSBvar"): return (k, ren.get(("ts", p[1]), p[1])) + p[2:]
+    if k == "svar": return ("svar", ren.get(("sc", p[1]), p[1]), p[2])
+    if k in ("TS", "TSS"): return (k, rename_vars(p[1], ren))
+    if k == "TSL":
+        z = p[2]
+        if z[0] == "szvar":
+            z = ("szvar", ren.get(("sz", z[1]), z[1]), z[2])
+        return ("TSL", rename_vars(p[1], ren), z)
+    if k == "TSD": return ("TSD", rename_vars(p[1], ren), rename_vars(p[2], ren))
+    if k == "TSW": return ("TSW", rename_vars(p[1], ren), p[2])
+    if k == "TSB": return ("TSB", tuple((f, rename_vars(q, ren)) for f, q in p[1])) + p[2:]
+    if k == "REF": return ("REF", rename_vars(p[1], ren))
+    return p
+
+
+def expand(ov, nargs):
+    """the fixed-arity signature a candidate stands for in a call with nargs arguments (None: the arity does not fit).
+    A variadic candidate with k tail arguments is its fixed parameters followed by k copies of the tail pattern in
+    which every variable the fixed part does not mention is renamed apart per copy (each tail argument binds it on its
+    own); variables the fixed part mentions stay shared."""
+    if not is_variadic(ov):
+        return ov if len(ov[0]) == nargs else None
+    fx, tail = fixed_params(ov), tail_pattern(ov)
+    if nargs < len(fx):
+        return None
+    shared = set()
+    for _, q in fx:
+        pvars(q, shared)
+    own = pvars(tail, set()) - shared
+    ps = list(fx)
+    for i in range(nargs - len(fx)):
+        ps.append(("ts", rename_vars(tail, {key: "%s.%d" % (key[1], i) for key in own})))
+    return (ps, ov[1], ov[2])
 
 
 def ground(p, b):
@@ -664,8 +791,12 @@ def strictly_more_specific(a_ov, b_ov):
     return generalises(b_ov[0], a_ov[0]) and not generalises(a_ov[0], b_ov[0])
 
 
+def show_param(pk, p):
+    return {"ts": "ts:", "vts": "*ts:", "sc": "sc:"}[pk] + (show_sp(p) if pk == "sc" else show_tp(p))
+
+
 def show_params(params):
-    return " ".join(pk + ":" + (show_tp(p) if pk == "ts" else show_sp(p)) for pk, p in params) or "()"
+    return " ".join(show_param(pk, p) for pk, p in params) or "()"
 
 
 # ------------------------------------------------------------------------------------------------
@@ -686,17 +817,25 @@ def show_params(params):
 #   l.359-361  a variable carrying constraints pays the halved rate
 #   l.372  rank(bundle with a schema variable) = 1 + var_rank/2     (read here for TSB[~S] as well)
 #   l.391-395  repeated generic variables are de-duplicated by name using their MINIMUM contribution
-#   l.753  a kwargs collector costs one rank point
+#   l.753  a kwargs collector costs one rank point, "like a variadic tail"
+#   l.782-791  (Variadic operator parameters) a variadic candidate matches when args >= fixed-params; each tail argument is
+#          matched against the declared pattern independently (a throwaway binding scope per argument: bindings made by the
+#          fixed prefix constrain the match, tail arguments never bind type variables); "the variadic tail contributes rank
+#          once per supplied tail argument, plus a small fixed penalty, so fixed-arity candidates are preferred over
+#          variadic ones at equal specificity"
+#          => documented call rank = rank(fixed parameters) + (#tail arguments) * rank(tail pattern) + 1
 # and "Select" (l.316-318): the unique lowest-rank survivor wins, a tie at the lowest rank is an ambiguity error.
 #
 # Not documented (so this oracle only brackets them): what an ANNOTATED **kwargs pack adds on top of the one
-# point of a collector, and what a numeric coercion into a concrete scalar parameter costs.  A size variable has
-# no term in the documented formula.
+# point of a collector, what a numeric coercion into a concrete scalar parameter costs, what a plain value promoted
+# into a variadic tail costs (0..1 each), and whether a variable that the fixed part and the tail pattern share is
+# charged once or per part (both readings bracket the rank).  A size variable has no term in the documented formula.
 # ------------------------------------------------------------------------------------------------
 DOC_BUDGET_INPUT = 10000          # l.355
 DOC_BUDGET_PAYLOAD = 100          # l.356
 DOC_BUDGET_SCALAR_PARAM = 1       # l.357
 DOC_KWARGS_POINT = 1              # l.753
+DOC_VARIADIC_POINT = 1            # l.753-754 ("one rank point, like a variadic tail"), l.788-789
 INF = float("inf")
 
 
@@ -740,7 +879,7 @@ def doc_occurrences(params):
     """(structural points, {variable: [cost of each occurrence, in signature order]})"""
     occ, structural = [], 0
     for pk, p in params:
-        if pk == "ts":
+        if pk in ("ts", "vts"):
             structural += _doc_ts(p, DOC_BUDGET_INPUT, occ)
         else:
             structural += _doc_scalar(p, DOC_BUDGET_SCALAR_PARAM, occ)
@@ -758,6 +897,9 @@ def doc_rank(params, combine=min):
 
 
 def doc_rank_text(params):
+    if params and params[-1][0] == "vts":
+        return "%s for the fixed parameters + [%s] per tail argument + %d" % (
+            doc_rank_text(params[:-1]), doc_rank_text([("ts", params[-1][1])]), DOC_VARIADIC_POINT)
     structural, by_var = doc_occurrences(params)
     parts = ["structural %d" % structural]
     for (kind, n), cs in sorted(by_var.items()):
@@ -775,7 +917,19 @@ def doc_name_clash(params):
 def doc_call_rank(ov, args):
     """[lo, hi] bracket of the documented rank of a matching candidate in one call"""
     params, _out, kw = ov
-    lo = hi = doc_rank(params)
+    if is_variadic(ov):
+        # rank(fixed parameters) + one rank(tail pattern) per supplied tail argument + one point
+        fx, tail = fixed_params(ov), tail_pattern(ov)
+        k = len(args) - len(fx)
+        separate = doc_rank(fx) + k * doc_rank([("ts", tail)]) + DOC_VARIADIC_POINT
+        # "de-duplicated by name": a variable shared by the fixed part and the tail, charged once overall
+        # (tail arguments bind on their own: a variable of the tail alone is never shared between two tail arguments)
+        joint = doc_rank(expand(ov, len(args))[0]) + DOC_VARIADIC_POINT
+        lo, hi = min(separate, joint), max(separate, joint)
+        hi += sum(1 for ak, _ in args[len(fx):] if ak == "sc")         # promoted plain values: undocumented, 0..1 each
+        params = fx
+    else:
+        lo = hi = doc_rank(params)
     if kw is not None:
         lo += DOC_KWARGS_POINT
         hi = hi + DOC_KWARGS_POINT if kw == "*" else INF
@@ -901,7 +1055,7 @@ def show_ov(label, ov):
     params, out, kw = ov
     ws = ["ov", label]
     for pk, p in params:
-        ws.append(pk + ":" + (show_tp(p) if pk == "ts" else show_sp(p)))
+        ws.append(show_param(pk, p))
     ws += ["->", "-" if out is None else show_tp(out)]
     if kw is not None:
         ws.append("kw:" + ("*" if kw == "*" else show_tp(kw)))
@@ -971,7 +1125,9 @@ def parse_ov_words(ws):
     params, i = [], 0
     while i < len(ws) and ws[i] != "->":
         w = ws[i]
-        if w.startswith("ts:"): params.append(("ts", parse_tp(w[3:])))
+        if params and params[-1][0] == "vts": raise Bad("the variadic parameter must be the last one")
+        if w.startswith("*ts:"): params.append(("vts", parse_tp(w[4:])))
+        elif w.startswith("ts:"): params.append(("ts", parse_tp(w[3:])))
         elif w.startswith("sc:"): params.append(("sc", parse_sp(w[3:])))
         else: raise Bad("param " + w)
         i += 1
@@ -1605,6 +1761,210 @@ def gen_repeat_case(rng, idx, mode=None):
     return Case(lines)
 
 
+# ---- families that mix fixed-arity and VARIADIC candidates ---------------------------------------------------------
+VAR_STREAM = "variadic"
+_FLAT_TAILS = ["~S", "~S", "TS[~T]", "TS[~T]", "TS[int]", "=TS[int]", "REF[~S]", "TS[~T<int|float>]", "TSS[~T]", "SIGNAL"]
+_NESTED_TAILS = ["TSL[~E,~N]", "TSL[~E,~N]", "TSL[~E,2]", "TSL[~E,0]", "TSD[~K,~V]", "TSD[~K,~V]", "TSD[str,~V]",
+                 "TSD[~K,TS[~K]]", "TSB[a:~U,b:~W]", "TSB[a:~U]", "TSB[a:~U,b:~U]", "TSB[a:~U,b:~U]", "TSL[TSL[~E,~N],~M]",
+                 "TSD[~K,TSL[~E,~N]]", "TSB[~R]", "TSL[TS[~T],~N]", "TSL[TSB[a:~U,b:~U],~N]", "REF[TSL[~E,~N]]",
+                 "TSB[a:~U,b:TSL[~U,~N]]", "TSW[~T,*]", "TSL[~E<TS[int]|TS[str]>,~N]", "TSD[~K,TSD[~K,~V]]",
+                 "TSL[~E,~N<2|3>]", "TSB[a:~U,b:TS[~T]]"]
+_VLEAVES = [("TS", "int"), ("TS", "int"), ("TS", "float"), ("TS", "str"), ("TSS", "int"), ("TSL", ("TS", "int"), 2),
+            ("TSD", "str", ("TS", "int")), ("TSB", (("a", ("TS", "int")),))]
+
+
+def _inst_s(rng, p, env):
+    if p[0] == "sconc":
+        return p[1]
+    key = ("sc", p[1])
+    if key not in env:
+        env[key] = rng.choice(list(p[2]) if p[2] else ["int", "str", "int", "float"])
+    return env[key]
+
+
+def instantiate(rng, p, env):
+    """a concrete schema that pattern p accepts; env carries the choices made for variables (so that a variable
+    shared with the fixed part is instantiated consistently)"""
+    k = p[0]
+    if k == "var":
+        key = ("ts", p[1])
+        if key not in env:
+            env[key] = rng.choice(list(p[2]) if p[2] else _VLEAVES)
+        return env[key]
+    if k == "conc": return p[1]
+    if k == "SIGNAL": return rng.choice(_VLEAVES)
+    if k in ("TS", "TSS"): return (k, _inst_s(rng, p[1], env))
+    if k == "TSL":
+        z = p[2]
+        if z[0] == "fixed":
+            n = z[1] if z[1] else rng.choice([1, 2, 3])
+        else:
+            key = ("sz", z[1])
+            if key not in env:
+                env[key] = rng.choice(list(z[2]) if z[2] else [1, 2, 2, 3])
+            n = env[key]
+        return ("TSL", instantiate(rng, p[1], env), n)
+    if k == "TSD":
+        s = _inst_s(rng, p[1], env)
+        if s not in ("int", "str"):         # the key types the concrete generator uses
+            s = env[("sc", p[1][1])] = "int" if not p[1][2] or "int" in p[1][2] else s
+        return ("TSD", s, instantiate(rng, p[2], env))
+    if k == "TSW":
+        w = p[2] if p[2] is not None else rng.choice([(3, 1), (2, 2)])
+        return ("TSW", _inst_s(rng, p[1], env), w[0], w[1])
+    if k == "TSB": return ("TSB", tuple((f, instantiate(rng, q, env)) for f, q in p[1])) + p[2:]
+    if k == "TSBvar":
+        key = ("ts", p[1])
+        if key not in env:
+            env[key] = ("TSB", tuple((f, rng.choice(_VLEAVES[:5])) for f in FIELDS[:rng.choice([1, 2])]))
+        return env[key]
+    if k == "REF": return mk_ref(instantiate(rng, p[1], env))
+    raise Bad(str(p))
+
+
+def _tail_instance(rng, tail, env_fixed):
+    """one tail argument: variables of the fixed part keep their choice, the tail's own variables are chosen afresh"""
+    return instantiate(rng, tail, dict(env_fixed))
+
+
+def gen_variadic_case(rng, idx, all_orders=False):
+    """a variadic candidate V = f(fixed.., *tail) - flat tails (*~S, *TS[~T], *TS[int], ..) and NESTED generic tails
+    (*TSL[~E,~N], *TSD[~K,~V], *TSB[a:~U,..], repeated variables, two levels) - with 0-2 fixed parameters (sometimes
+    sharing a variable with the tail), together with competitors whose rank lies close: a bare variable per position,
+    V's fixed part + a bare variable per tail position, the exact fixed-arity expansion of V (k copies of the tail
+    pattern, with shared or renamed-apart variables), per-position generalisations / concrete leaves, other variadic
+    candidates (more generic tail, concrete tail, the SAME tail = a tie, bare fixed part, one more fixed parameter);
+    calls with 0..4 tail arguments: homogeneous, heterogeneous, REF-wrapped, one argument of another kind, a plain value"""
+    lines = ["case %d" % idx]
+    tail = parse_tp(rng.choice(_NESTED_TAILS if rng.random() < 0.68 else _FLAT_TAILS))
+    tvars = sorted(n for kk, n in pvars(tail, set()) if kk == "ts" and ("TSBvar", n) != tail[:2])
+    nfix = rng.choice([0, 0, 0, 1, 1, 2])
+    fixed = []
+    for i in range(nfix):
+        r = rng.random()
+        if r < 0.22 and tvars: fixed.append(("ts", ("var", rng.choice(tvars), ())))       # shared with the tail
+        elif r < 0.50: fixed.append(("ts", ("var", "A%d" % i, ())))
+        elif r < 0.65: fixed.append(("ts", ("TS", ("svar", "q%d" % i, ()))))
+        elif r < 0.78: fixed.append(("ts", ("TS", ("sconc", "int"))))
+        elif r < 0.86: fixed.append(("ts", ("TSL", ("var", "A%d" % i, ()), ("szvar", "L%d" % i, ()))))
+        elif r < 0.93: fixed.append(("sc", ("sconc", "int")))
+        else: fixed.append(("sc", ("svar", "j%d" % i, ())))
+    env = {}
+    fargs = [(pk, instantiate(rng, q, env)) if pk == "ts" else ("sc", _inst_s(rng, q, env)) for pk, q in fixed]
+    fixed_vars = set()
+    for _, q in fixed:
+        pvars(q, fixed_vars)
+    r = rng.random()
+    if r < 0.55: out = None
+    elif r < 0.90 or not (pvars(tail, set()) - fixed_vars): out = gen_out(rng, fixed) if fixed else ("conc", ("TS", "int"))
+    else:       # an output that needs a variable only the TAIL mentions: it can never be produced
+        kk, n = sorted(pvars(tail, set()) - fixed_vars)[0]
+        out = ("var", n, ()) if kk == "ts" else ("TS", ("svar", n, ())) if kk == "sc" else ("TSL", ("TS", ("sconc", "int")), ("szvar", n, ()))
+    ovs = [(fixed + [("vts", tail)], out, "*" if rng.random() < 0.05 else None)]
+    ks = sorted(rng.sample([0, 1, 1, 2, 2, 3, 4], rng.choice([2, 3])))
+    ks = sorted(set(ks))
+    seeds = {k: [_tail_instance(rng, tail, env) for _ in range(k)] for k in ks}
+    homog = {}
+    for k in ks:
+        one = _tail_instance(rng, tail, env)
+        homog[k] = [one] * k
+
+    def renamed(i):
+        own = pvars(tail, set()) - fixed_vars
+        return rename_vars(tail, {key: "%s%d" % (key[1], i) for key in own})
+    kinds = ["bare", "bare", "fixed+bare", "expansion", "expansion-apart", "per-position", "per-position", "concrete",
+             "v-generic", "v-concrete", "v-same", "v-bare-fixed", "v-one-more-fixed", "v-generalised"]
+    want = rng.choice([2, 3, 3, 4, 5])
+    attempts = 0
+    while len(ovs) < 1 + want and attempts < 40:
+        attempts += 1
+        kind = rng.choice(kinds)
+        k = rng.choice(ks)
+        n = nfix + k
+        cand_out = None if rng.random() < 0.7 else ("conc", ("TS", "int"))
+        if kind == "bare":
+            if n == 0: continue
+            ps = [("ts", ("var", "P%d" % i, ())) for i in range(n)]
+            for i, (pk, q) in enumerate(fixed):
+                if pk == "sc": ps[i] = (pk, q)
+        elif kind == "fixed+bare":
+            if k == 0 and rng.random() < 0.5: continue
+            ps = list(fixed) + [("ts", ("var", "Q%d" % i, ())) for i in range(k)]
+        elif kind == "expansion":
+            ps = list(fixed) + [("ts", tail)] * k
+        elif kind == "expansion-apart":
+            ps = list(fixed) + [("ts", renamed(i)) for i in range(k)]
+        elif kind in ("per-position", "concrete"):
+            if k == 0: continue
+            src = rng.choice([seeds[k], homog[k]])
+            ps = list(fixed)
+            for i, c in enumerate(src):
+                alts = _leaf_generalisations(rng, strip_refs(c), "g%d" % i)
+                ps.append(("ts", ("conc", c) if kind == "concrete" else rng.choice(alts)))
+        else:
+            t2 = tail
+            fx2 = list(fixed)
+            if kind == "v-generic": t2 = ("var", "Z", ())
+            elif kind == "v-concrete":
+                if not ks[-1]: continue
+                t2 = ("conc", strip_refs(homog[ks[-1]][0]))
+            elif kind == "v-generalised":
+                if not ks[-1]: continue
+                t2 = rng.choice(_leaf_generalisations(rng, strip_refs(homog[ks[-1]][0]), "h"))
+            elif kind == "v-bare-fixed":
+                if not fixed: continue
+                fx2 = [("ts", ("var", "B%d" % i, ())) if pk == "ts" else (pk, q) for i, (pk, q) in enumerate(fixed)]
+            elif kind == "v-one-more-fixed":
+                fx2 = list(fixed) + [("ts", renamed(9))]
+            ps = fx2 + [("vts", t2)]
+        if any(ps == o[0] for o in ovs) and kind != "v-same":
+            continue
+        ovs.append((ps, cand_out, None))
+    ovs = ovs[:6]
+    order = list(range(len(ovs)))
+    rng.shuffle(order)
+    ovs = [ovs[i] for i in order]
+    labels = ["A", "B", "C", "D", "E", "F"][:len(ovs)]
+    for l, ov in zip(labels, ovs):
+        lines.append(show_ov(l, ov))
+    if all_orders and len(labels) <= 4:
+        import itertools
+        perms = [list(q) for q in itertools.permutations(labels)]
+    else:
+        perms = gen_perms(rng, labels, "quick")
+    for q in perms:
+        lines.append("perm " + " ".join(q))
+    calls = []
+    for k in ks:
+        calls.append(list(fargs) + [("ts", c) for c in (homog[k] if rng.random() < 0.45 else seeds[k])])
+    extra = list(calls[-1])
+    r = rng.random()
+    if len(extra) > nfix and r < 0.45:           # one tail argument of another kind
+        i = rng.randrange(nfix, len(extra))
+        extra[i] = mutate_arg(rng, extra[i])
+    elif len(extra) > nfix and r < 0.60:         # a plain value in the tail
+        i = rng.randrange(nfix, len(extra))
+        c = strip_refs(extra[i][1])
+        extra[i] = ("sc", c[1] if c[0] == "TS" else rng.choice(SCALARS))
+    elif r < 0.80:                               # REF-wrapped
+        extra = [(kk, mk_ref(a)) if kk == "ts" and rng.random() < 0.6 else (kk, a) for kk, a in extra]
+    elif fargs:                                  # a fixed argument of another kind / too few arguments
+        if rng.random() < 0.5:
+            extra[rng.randrange(nfix)] = mutate_arg(rng, extra[rng.randrange(nfix)])
+        else:
+            extra = extra[:nfix - 1]
+    else:
+        extra = extra + [("ts", _tail_instance(rng, tail, env))]
+    if extra not in calls:
+        calls.append(extra)
+    if rng.random() < 0.5:                       # every other tail length between 0 and 4, heterogeneous
+        k = rng.choice([x for x in range(5) if x not in ks] or [1])
+        calls.append(list(fargs) + [("ts", _tail_instance(rng, tail, env)) for _ in range(k)])
+    for c in calls[:5]:
+        lines.append(show_call(c))
+    return Case(lines)
+
+
 def _var_sites(p, c, acc):
     """the (REF-stripped) argument sub-schemas that the occurrences of every whole-time-series variable / schema variable of
     pattern p are confronted with while p is read against schema c: acc[name] += [(kind, schema)], kind 'var' | 'schema'.
@@ -1625,11 +1985,25 @@ def _var_sites(p, c, acc):
 
 
 def var_sites(params, args):
+    """the positions of every whole-time-series / schema variable.  Variadic candidate: the fixed positions, and - for a
+    variable the FIXED part mentions - its positions in every tail port too (such a variable is bound once, by the fixed
+    part); a variable that only the tail pattern mentions is bound per tail argument and has no common binding"""
     acc = {}
-    if len(params) == len(args):
-        for (pk, pat), (ak, a) in zip(params, args):
+    sp = split_call((params, None, None), args)
+    if sp is not None:
+        fx, fargs, tail, targs = sp
+        for (pk, pat), (ak, a) in zip(fx, fargs):
             if pk == "ts" and ak == "ts":
                 _var_sites(pat, a, acc)
+        if tail is not None:
+            shared = set()
+            for _, q in fx:
+                pvars(q, shared)
+            for ak, a in targs:
+                if ak == "ts":
+                    for name, sites in _var_sites(tail, a, {}).items():
+                        if ("ts", name) in shared:
+                            acc.setdefault(name, []).extend(sites)
     return acc
 
 
@@ -1712,6 +2086,11 @@ def streams(rng, tier, seed):
             c = Case([l.rstrip("\n") for l in open(os.path.join(cdir, f)) if l.strip()])
             (spec if f.startswith(SPEC_CORPUS) else corpus).append(c)
     spec += [gen_spec_case(rng, 20000 + i) for i in range(12 if tier == "quick" else 150)]
+    variadic = [gen_variadic_case(rng, 80000 + i) for i in range(300 if tier == "quick" else 6000)]
+    if tier != "quick":
+        variadic += [gen_variadic_case(rng, 90000 + i, all_orders=True) for i in range(600)]
+    vcorpus = [c for c in corpus if any(" *ts:" in l for l in c.lines)]
+    corpus = [c for c in corpus if c not in vcorpus]
     # HGV_DISPATCH_BIN: a harness linked against a privately mutated copy of a header (mutation-testing
     # the check without forcing a rebuild of the shared tree)
     impl = os.environ.get("HGV_DISPATCH_BIN") or os.path.join(BUILD, "hgv_dispatch")
@@ -1720,6 +2099,8 @@ def streams(rng, tier, seed):
     # after every other case or they would crowd out a genuine failure.  On the main stream the same check is
     # evaluated and counted (feature "specificity-inversion") but does not raise.
     return [Stream("dispatch", [impl], model_cmd("C19"), corpus + cases, timeout=1800),
+            # families that mix fixed-arity and variadic candidates (flat and nested generic tails, 0..4 tail arguments)
+            Stream(VAR_STREAM, [impl], model_cmd("C19"), vcorpus + variadic, timeout=900),
             Stream(SPEC_STREAM, [impl], model_cmd("C19"), spec, timeout=600),
             # named bundles (a bundle type = name + field list): named / un-named field-listing patterns, and a REPEATED
             # whole-time-series variable over bundle types that share their field list
@@ -1791,6 +2172,8 @@ def _analyse(case, out):
                     for a, b in ((w[1], other), (other, w[1])):
                         if family[a][2] is not None or family[b][2] is not None or a not in base or b not in base:
                             continue
+                        if is_variadic(family[a]) or is_variadic(family[b]):
+                            continue        # the base rank of a variadic candidate leaves its tail pattern out
                         dom = ground_instance(family[a][0], family[b][0])
                         if dom is None or not dom:
                             continue
@@ -1836,6 +2219,35 @@ def _ov_features(ov, feats):
         feats.add("overload:kwargs-collector")
     if out is None:
         feats.add("overload:no-output")
+    if is_variadic(ov):
+        tail, fx = tail_pattern(ov), fixed_params(ov)
+        feats.add("overload:variadic")
+        feats.add("variadic:fixed-params:%d" % len(fx))
+        feats.add("variadic-tail:" + tail_class(tail))
+        own, shared = pvars(tail, set()), set()
+        for _, q in fx:
+            pvars(q, shared)
+        if own & shared:
+            feats.add("variadic-tail:shares-a-variable-with-the-fixed-part")
+        if out is not None and pvars(out, set()) & (own - shared):
+            feats.add("variadic:output-needs-a-tail-variable")
+
+
+def tail_class(tail):
+    """flat: concrete / bare variable / TS[..] / TSS[..] / SIGNAL (the two rankers of the code agree); nested-generic: a
+    variable (time-series, schema or size) inside TSL / TSD / TSB (decay, de-duplication, size surcharge tell them apart)"""
+    t = tail
+    while t[0] == "REF":
+        t = t[1]
+    vs = pvars(t, set())
+    if t[0] in ("TSL", "TSD", "TSB", "TSBvar", "TSW"):
+        if not vs:
+            return "nested-concrete"
+        occ = []
+        _doc_ts(t, DOC_BUDGET_INPUT, occ)
+        names = [n for n, _ in occ]
+        return "nested-generic" + (":repeated-variable" if len(names) != len(set(names)) else "")
+    return "flat-generic" if vs else "flat-concrete"
 
 
 def _pat_features(p, feats, depth):
@@ -1875,11 +2287,27 @@ def _check_call(ln, args, o, family, order, perms, bad, feats, spec, sv=None):
     if list(solo) != order:
         bad.append("solo report lists %s, family is %s" % (list(solo), order))
         return False
+    eff = {l: expand(family[l], len(args)) for l in order}     # the fixed-arity signature each candidate stands for here
     for l in order:
-        if len(family[l][0]) == len(args):
-            for (pk, pat), (ak, a) in zip(family[l][0], args):
-                if pk == "ts" and ak == "ts":
-                    _bundle_relation(pat, a, feats)
+        sp = split_call(family[l], args)
+        if sp is None:
+            continue
+        fx, fargs, tail, targs = sp
+        for (pk, pat), (ak, a) in zip(fx, fargs):
+            if pk == "ts" and ak == "ts":
+                _bundle_relation(pat, a, feats)
+        if tail is not None:
+            feats.add("variadic-call:tail-args:%s" % (len(targs) if len(targs) < 4 else "4+"))
+            tts = [a for ak, a in targs if ak == "ts"]
+            if len({strip_refs(a) for a in tts}) >= 2:
+                feats.add("variadic-call:heterogeneous-tail")
+            elif len(tts) >= 2:
+                feats.add("variadic-call:homogeneous-tail")
+            if any(ak == "sc" for ak, _ in targs):
+                feats.add("variadic-call:plain-value-in-the-tail")
+            for ak, a in targs:
+                if ak == "ts":
+                    _bundle_relation(tail, a, feats)
     for k, a in args:
         if k == "ts" and a[0] == "REF": feats.add("arg:REF")
         if k == "ts" and a[0] != "REF" and deref(a) != a: feats.add("arg:nested-REF")
@@ -1964,15 +2392,16 @@ def _check_call(ln, args, o, family, order, perms, bad, feats, spec, sv=None):
             got = ("win", m.group("wl"))
         # rank-free specificity: if A and B both match and A's parameter patterns are a substitution instance of
         # B's (not vice versa), B must not be selected (A, or an ambiguity error, is acceptable)
-        if got[0] == "win" and got[1] in family:
+        if got[0] == "win" and got[1] in family and eff.get(got[1]) is not None:
             for l in members:
-                if l != got[1] and l in msurv and l in family and strictly_more_specific(family[l], family[got[1]]):
+                if l != got[1] and l in msurv and l in family and eff.get(l) is not None \
+                        and strictly_more_specific(eff[l], eff[got[1]]):
                     msg = ("[C19-spec] selected %s although the more specific %s also matches (call %s)"
                            % (show_params(family[got[1]][0]), show_params(family[l][0]), ln[5:]))
                     if msg not in spec:
                         spec.append(msg)
         if doc_iv is not None and len(msurv) >= 2:
-            _check_docrank(ln, got, {l: doc_iv[l] for l in msurv}, family, bad, feats)
+            _check_docrank(ln, got, {l: doc_iv[l] for l in msurv}, family, bad, feats, eff)
         if got != pw:
             if pw == ("err", "ambiguous"):
                 bad.append("%s: best rank %d is shared by %s, expected an ambiguity error, got %s" % (ln, mn, tied, got[1]))
@@ -2018,9 +2447,12 @@ def _check_call(ln, args, o, family, order, perms, bad, feats, spec, sv=None):
             bad.append("%s: unparseable bindings (%s)" % (ln, e))
             continue
         params, outp, _ = family[wl]
-        if len(params) != len(args):
-            bad.append("%s: winner %s has %d parameters for %d arguments" % (ln, wl, len(params), len(args)))
+        sp = split_call(family[wl], args)
+        if sp is None:
+            bad.append("%s: winner %s has %d %sparameters for %d arguments"
+                       % (ln, wl, len(fixed_params(family[wl])), "fixed " if is_variadic(family[wl]) else "", len(args)))
             continue
+        fx, fargs, tail, targs = sp
         for name, sites in var_sites(params, args).items():
             bound = b.get(("ts", name))
             for kind, t in sites:
@@ -2041,7 +2473,7 @@ def _check_call(ln, args, o, family, order, perms, bad, feats, spec, sv=None):
                            % (ln, wl, show_params(params), name, show_ct(bound), name, show_ct(t)))
                     if sv is not None and msg not in sv:
                         sv.append(msg)
-        for i, ((pk, pat), (ak, a)) in enumerate(zip(params, args)):
+        for i, ((pk, pat), (ak, a)) in enumerate(zip(fx, fargs)):
             need = pvars(pat, set())
             if not need <= set(b):
                 bad.append("%s: winner %s leaves %s of parameter %d unbound" % (ln, wl, sorted(need - set(b)), i))
@@ -2056,6 +2488,24 @@ def _check_call(ln, args, o, family, order, perms, bad, feats, spec, sv=None):
             if not ok or b2 != b:
                 bad.append("%s: under the reported bindings parameter %d of %s (%s) does not accept %s"
                            % (ln, i, wl, show_tp(pat) if pk == "ts" else show_sp(pat), a if ak == "sc" else show_ct(a)))
+        if tail is not None:
+            # a variadic winner: its bindings are those of the FIXED part - no variable that only the tail pattern mentions
+            # may appear among them - and EVERY tail argument is, on its own, an instance of the tail pattern under some
+            # extension of them
+            fixed_vars = set()
+            for _, q in fx:
+                pvars(q, fixed_vars)
+            leaked = sorted(set(b) - fixed_vars)
+            if leaked:
+                bad.append("%s: variadic winner %s (%s) reports bindings for %s, which its fixed parameters do not mention: "
+                           "tail arguments are matched independently and must not bind type variables"
+                           % (ln, wl, show_params(params), ["~" + n for _, n in leaked]))
+            for i, arg in enumerate(targs):
+                ok, _scope = tail_arg_matches(tail, arg, b)
+                if not ok:
+                    bad.append("%s: under the reported bindings the tail pattern *%s of %s does not accept tail argument %d (%s)"
+                               % (ln, show_tp(tail), wl, i, arg[1] if arg[0] == "sc" else show_ct(arg[1])))
+            feats.add("variadic-winner:%s-tail-args" % (len(targs) if len(targs) < 4 else "4+"))
         if outp is None:
             if m.group("out") != "-":
                 bad.append("%s: sink candidate reports an output" % ln)
@@ -2067,19 +2517,24 @@ def _check_call(ln, args, o, family, order, perms, bad, feats, spec, sv=None):
     return len(surv) >= 2
 
 
-def _check_docrank(ln, got, iv, family, bad, feats):
+def _check_docrank(ln, got, iv, family, bad, feats, eff=None):
     """[C19-docrank]: the outcome of one resolution against the DOCUMENTED rank of the matching candidates.
     iv: label -> (lo, hi) bracket of the documented rank (lo == hi unless an undocumented adjustment applies).
     Only what holds for every value inside the brackets is demanded."""
     def desc(l):
         lo, hi = iv[l]
         txt = doc_rank_text(family[l][0])
-        if lo != hi or lo != doc_rank(family[l][0]):
-            txt += "; in this call %s..%s" % (lo, hi)
+        if lo != hi or is_variadic(family[l]) or lo != doc_rank(family[l][0]):
+            txt += "; in this call %s" % (lo if lo == hi else "%s..%s" % (lo, hi))
         return "%s (%s, documented rank %s)" % (l, show_params(family[l][0]), txt)
 
+    sig = eff if eff is not None else family      # variadic candidates: the signature they stand for in this call
+
+    def more_specific(a, b):
+        return sig.get(a) is not None and sig.get(b) is not None and strictly_more_specific(sig[a], sig[b])
+
     def instance_note(a, b):
-        if strictly_more_specific(family[a], family[b]):
+        if more_specific(a, b):
             return "; %s is moreover a strict substitution instance of %s" % (a, b)
         return ""
     labels = sorted(iv)
@@ -2090,10 +2545,12 @@ def _check_docrank(ln, got, iv, family, bad, feats):
     if best:
         feats.add("docrank:decides-winner")
         for d in labels:
-            if d != best[0] and strictly_more_specific(family[d], family[best[0]]):
+            if d != best[0] and more_specific(d, best[0]):
                 feats.add("docrank:disagrees-with-instantiation")      # the C19-a zone, reported by [C19-spec] only
-            if d != best[0] and strictly_more_specific(family[best[0]], family[d]):
+            if d != best[0] and more_specific(best[0], d):
                 feats.add("docrank:agrees-with-instantiation")
+            if is_variadic(family[best[0]]) != is_variadic(family[d]):
+                feats.add("docrank:decides-variadic-vs-fixed:%s-wins" % ("variadic" if is_variadic(family[best[0]]) else "fixed"))
     elif len(tied) >= 2:
         feats.add("docrank:decides-tie")
     else:
